@@ -329,18 +329,19 @@ Definition render_tok (v : sval) (t : tok) : rres :=
   | KErr => RFail
   end.
 
-(* the text of a whole format string: concatenation of the item texts; fails when any item fails *)
-Fixpoint render_all (v : sval) (l : list tok) (acc : bytes) (skip : bool) : rres :=
+(* the text of a whole format string: concatenation of the item texts; fails when an item fails;
+   no claim at all once an item without a claim has been met *)
+Fixpoint render_all (v : sval) (l : list tok) (acc : bytes) : rres :=
   match l with
-  | [] => if skip then RSkip else ROk acc
+  | [] => ROk acc
   | t :: r =>
       match render_tok v t with
-      | ROk s => render_all v r (acc ++ s) skip
+      | ROk s => render_all v r (acc ++ s)
       | RFail => RFail
-      | RSkip => render_all v r acc true
+      | RSkip => RSkip
       end
   end.
-Definition doc_format (v : sval) (fmt : bytes) : rres := render_all v (expand_iso (tokens fmt)) [] false.
+Definition doc_format (v : sval) (fmt : bytes) : rres := render_all v (expand_iso (tokens fmt)) [].
 
 (** * Canonical codes of the items (declaration order of the public enums, as the harness prints
     them) for the item-list claim *)
